@@ -119,6 +119,9 @@ def slaterSchedule (j : Json) : Except String Json := do
   .ok (J.ofList (J.ofList fun (ab : Nat × Nat) => J.ofNatList [ab.1, ab.2])
     (slaterSchedulePairs (← J.nat (← J.field j "n"))))
 
+def ffftSimH (j : Json) : Except String Json := do
+  .ok (J.ofList (J.ofList J.ofIntList) (ffftSim (← J.nat (← J.field j "n"))))
+
 def handle (op : String) (j : Json) : Option (Except String Json) :=
   match op with
   | "c14.swap" => some (swap j)
@@ -132,6 +135,7 @@ def handle (op : String) (j : Json) : Option (Except String Json) :=
   | "c14.givens" => some (givens j)
   | "c14.ffft" => some (ffft j)
   | "c14.ffftexp" => some (ffftExp j)
+  | "c14.ffftsim" => some (ffftSimH j)
   | "c14.slaterschedule" => some (slaterSchedule j)
   | _ => none
 
